@@ -210,6 +210,8 @@ static void execOp(const std::string& actor, size_t idx, const js::Value& op) {
 	std::string name = op["op"].str();
 	size_t i = (size_t)op["i"].i64(0);
 	{ tr::Rec(actor, "op<").num((long long)idx).str(name).num((long long)i); }
+	// the history up to here survives whatever kills the process inside the op (sanitizer aborts do not run our handlers)
+	tr::flush_fd(1);
 	std::string result;
 	Interpreter interp; // our own handle for the duration of the call
 	bool needsInterp = name == "step" || name == "run" || name == "recv" || name == "cancel" || name == "reset" ||
@@ -231,8 +233,18 @@ static void execOp(const std::string& actor, size_t idx, const js::Value& op) {
 			int64_t maxSteps = op["max"].i64(200);
 			size_t block = blockOf(op);
 			const js::Value& until = op["until"];
+			bool snap = op["snap"].boolean(false);
 			for (int64_t k = 0; k < maxSteps; k++) {
 				doStep(actor, R->slots[i], interp, block, result);
+				if (snap && (result == "MACROSTEPPED" || result == "IDLE")) {
+					// snapshot at every stable point (C14): the text goes into the history
+					try {
+						std::string text = interp.serialize();
+						tr::Rec(R->slots[i].tag, "snap").num((long long)idx).num((long long)k).str(text);
+					} catch (...) {
+						recordException(actor, "serialize");
+					}
+				}
 				bool stop = (result == "FINISHED" || result == "EXC");
 				for (size_t u = 0; u < until.size(); u++)
 					if (until[u].str() == result) stop = true;
@@ -291,6 +303,11 @@ static void execOp(const std::string& actor, size_t idx, const js::Value& op) {
 			result = d.asJSON();
 		} else if (name == "transform") {
 			result = doTransform(interp, op);
+		} else if (name == "sleep_us") {
+			uint64_t until = usim::now_ns() + (uint64_t)op["us"].i64(0) * 1000ull;
+			std::function<bool()> ready = [until]() { return usim::now_ns() >= until; };
+			std::function<uint64_t()> dl = [until]() { return until; };
+			usim::block_until(ready, dl, "sleep", nullptr);
 		} else if (name == "sleep") {
 			usim::sleep_ms((uint64_t)op["ms"].i64(1));
 		} else if (name == "mark") {
